@@ -228,7 +228,7 @@ def _map_term(t, f, memo):
     if op == 'powi':
         return f(('powi', M(t[1]), t[2]))
     if op == 'seq':
-        return f(('seq', tuple(tuple(map_path(y, f, memo) if _is_path(y) else (M(y) if _is_term(y) else y) for y in src) for src in t[1]), M(t[2])))
+        return f(('seq', tuple(tuple(map_path(y, f, memo) if _is_path(y) else (M(y) if _is_term(y) else y) for y in src) for src in t[1]), M(t[2])) + t[3:])
     if op == 'iter':
         return f(('iter', t[1]) + tuple(map_path(x, f, memo) if _is_path(x) else (M(x) if _is_term(x) else x) for x in t[2:]))
     args = tuple(M(x) if _is_term(x) else x for x in t[1:])
@@ -367,3 +367,27 @@ def path_from_str(s, root=('obj', 1)):
         else:
             comps.append(('f', part))
     return tuple(comps)
+
+
+def beta_elem(coll, idx):
+    """element `idx` of a collected pure map: elem(collect(seq[S | k -> item]), idx) = item[k := idx].
+    Only for sequences over slices / ranges / zips (same length and order as the source); filters etc. are left alone."""
+    if coll[0] == 'gamma':
+        a, b = beta_elem(coll[2], idx), beta_elem(coll[3], idx)
+        if a is not None and b is not None:
+            return mk('gamma', coll[1], a, b)
+        return None
+    if not (coll[0] == 'uf' and coll[1] == 'iter.collect' and len(coll) >= 3 and coll[2][0] == 'seq'):
+        return None
+    seq = coll[2]
+    if any(src[0] not in ('slice', 'range', 'owned') for src in seq[1]):
+        return None
+    lvl = seq[3] if len(seq) > 3 else None
+    if lvl is None:
+        return None
+
+    def f(x):
+        if x == ('bound', lvl):
+            return idx
+        return x
+    return map_term(seq[2], f)
